@@ -55,6 +55,9 @@ const RISKY: &[&str] = &[
     "from_text format:json '{\"columns\": [\"k\", \"a\", \"b\"], \"data\": [[1, 2, 3], [4, 5, 6]]}' | select {b, k}\n",
     "from_text 'k,a,b\n1,2,3\n4,5,6' | derive {c = a + b}\n",
     "from [{k = 1, a = 2, b = 3}, {k = 4, a = 5, b = 6}] | select {b, a, k}\n",
+    // identifiers that only some dialects reserve (the decision to quote depends on the target)
+    "from invoice | select {tag, identity, system, snapshot, oid, delta, `user`, time} | sort {tag} | take 5\n",
+    "from backup | join offline (==oid) | select {backup.encode, offline.wallet, c = credentials ?? explicit}\n",
     // sources known to panic in different stages
     "let f = x -> internal std.math\nfrom t1 | select {y = f a}\n",
     "from t1 | select {id, a} | derive {c2 = id} | sort {id} | select {c5 = c2}\n",
@@ -142,13 +145,36 @@ pub fn gen_case(t: &mut Tape) -> Case {
             dialect: if t.chance(1, 2) { 0 } else { t.choose(DIALECTS.len()) },
         });
     }
+    // dialect alternation: one source compiled under two targets in turn on few threads, so that
+    // anything remembered from a compilation for another target shows. The source uses identifiers
+    // whose treatment differs between dialects.
+    let mut threads = 1 + t.choose(8);
+    if t.chance(1, 4) {
+        sources.push(t.pick(DIALECT_SENSITIVE).to_string());
+        let si = sources.len() - 1;
+        let d1 = t.choose(DIALECTS.len());
+        let d2 = if t.chance(2, 3) { DIALECTS.iter().position(|d| d.0 == "redshift").unwrap_or(0) } else { t.choose(DIALECTS.len()) };
+        for k in 0..(4 + t.choose(4)) {
+            calls.push(Call { src: si, kind: 0, dialect: if k % 2 == 0 { d1 } else { d2 } });
+        }
+        threads = 1 + t.choose(2);
+    }
     Case {
         sources,
         calls,
-        threads: 1 + t.choose(8),
+        threads,
         project,
     }
 }
+
+/// programs whose SQL differs between dialects in identifier quoting, functions and clauses
+const DIALECT_SENSITIVE: &[&str] = &[
+    "from invoice | select {tag, identity, system, snapshot, oid, delta, `user`, time} | sort {tag} | take 5\n",
+    "from backup | join offline (==oid) | select {backup.encode, offline.wallet, c = credentials ?? explicit}\n",
+    "from t1 | select {`order`, `Mixed Case`, `é`, key, value, percent = a / b} | take 2..4 | filter key != null\n",
+    "from t1 | derive {d = a // b, m = a % b, s = f\"{u}-{s}\", r = (s ~= \"x\")} | group {k} (take 1)\n",
+    "from t1 | select {timestamp, time, date, interval, text, identity} | filter timestamp > @2020-01-01 | take 3\n",
+];
 
 fn perm(n: usize, mut k: usize) -> Vec<usize> {
     let mut items: Vec<usize> = (0..n).collect();
